@@ -332,9 +332,30 @@ def wl_docs(ctx):
                 ctx.violation("documented-example-wrong", {"definition": d, "got": G.view(Style.parse(d))})
 
 
+def wl_link_with_blank(ctx):
+    """Links that contain a blank (a file:// URL of a path with spaces - rich builds such links from file names): the
+    text form 'link <url>' is split at blanks when it is parsed."""
+    Style = _S()
+    if ctx.shard != 0:
+        return
+    for link in ("a b", "file:///home/me/my notes/plan b.py", "https://example.org/a%20b c", " ", "x\ty"):
+        for kw in ({}, {"bold": True}, {"color": "red"}):
+            s = Style(link=link, **kw)
+            ctx.count("mon.link_with_blank")
+            text = str(s)
+            try:
+                ok = Style.parse(text) == s
+            except Exception:
+                ok = False
+            if not ok:
+                ctx.violation("str-roundtrip-fails-for-a-link-containing-a-blank", {"link": link, "other": kw, "text": text})
+            ctx.case_done(("lb", link, repr(kw)), True, {"link": link})
+
+
 def workloads(tier):
     big = tier == "thorough"
     return [WL("docs", wl_docs, kind="custom"),
+            WL("link_with_blank", wl_link_with_blank, kind="custom"),
             WL("routes", wl_routes, 600000 if big else 80000),
             WL("algebra", wl_algebra, 900000 if big else 120000)]
 
